@@ -84,13 +84,14 @@ var workerSamples int
 
 // kase is the context of one running case.
 type kase struct {
-	c    *mon.Ctx
-	spec caseSpec
-	r    *mon.Rand
-	prog *progress
-	big  bool
-	cfg  string // "<setup>/<version>/<compression>"
-	step string
+	c     *mon.Ctx
+	spec  caseSpec
+	r     *mon.Rand
+	prog  *progress
+	big   bool
+	cfg   string // "<setup>/<version>/<compression>"
+	alias string // scenario whose frame menu this case borrows after its own opening (the spec keeps the real name: replays)
+	step  string
 }
 
 func (k *kase) count(name string, n int64) { k.c.Count(name, n) }
